@@ -50,6 +50,21 @@ class Atoms:
         return self.b.setdefault(text, len(self.b))
 
 
+def _n(n):
+    """N literal; the case files open N_scope, so no annotation (coqc's parser is the bottleneck)"""
+    assert isinstance(n, int) and n >= 0
+    return str(n)
+
+
+def _z(n):
+    return f"{n}%Z" if n >= 0 else f"({n})%Z"
+
+
+def chars(text):
+    """a str as the list of its code points"""
+    return "[" + ";".join(str(ord(ch)) for ch in text) + "]"
+
+
 def _opt(x):
     return "None" if x is None else f"(Some {x})"
 
@@ -62,13 +77,13 @@ def const_term(v, at):
     if isinstance(v, bool):
         return f"(CBool {q.boolean(v)})"
     if isinstance(v, int):
-        return f"(CInt {q.Z(v)})"
+        return f"(CInt {_z(v)})"
     if isinstance(v, float):
-        return f"(CFloat {q.N(at.fid(repr(v)))})"
+        return f"(CFloat {_n(at.fid(repr(v)))})"
     if isinstance(v, str):
-        return f"(CStr {q.N(at.sid(v))})"
+        return f"(CStr {chars(v)})"
     if isinstance(v, bytes):
-        return f"(CBytes {q.N(at.bid(v.hex()))})"
+        return f"(CBytes {_n(at.bid(v.hex()))})"
     raise TranslateError(f"constant of type {type(v).__name__} outside the subset")
 
 
@@ -78,7 +93,7 @@ def expr_term(e, at):
     if isinstance(e, ast.Constant):
         return f"(EConst {const_term(e.value, at)})"
     if isinstance(e, ast.Name):
-        return f"(EName {q.N(at.sid(e.id))})"
+        return f"(EName {_n(at.sid(e.id))})"
     if isinstance(e, ast.BinOp):
         if type(e.op) not in BINOPS:
             raise TranslateError(f"binary operator {type(e.op).__name__} outside the subset")
@@ -94,7 +109,7 @@ def expr_term(e, at):
     if isinstance(e, ast.IfExp):
         return f"(EIfExp {X(e.test)} {X(e.body)} {X(e.orelse)})"
     if isinstance(e, ast.Call):
-        kws = [f"({_opt(q.N(at.sid(k.arg)) if k.arg is not None else None)}, {X(k.value)})" for k in e.keywords]
+        kws = [f"({_opt(chars(k.arg) if k.arg is not None else None)}, {X(k.value)})" for k in e.keywords]
         return f"(ECall {X(e.func)} {L(e.args)} {q.lst(kws)})"
     if isinstance(e, ast.Starred):
         return f"(EStarred {X(e.value)})"
@@ -113,11 +128,11 @@ def expr_term(e, at):
         o = lambda n: _opt(X(n) if n is not None else None)  # noqa: E731
         return f"(ESlice {o(e.lower)} {o(e.upper)} {o(e.step)})"
     if isinstance(e, ast.Attribute):
-        return f"(EAttribute {X(e.value)} {q.N(at.sid(e.attr))})"
+        return f"(EAttribute {X(e.value)} {_n(at.sid(e.attr))})"
     if isinstance(e, ast.NamedExpr):
         if not isinstance(e.target, ast.Name):
             raise TranslateError("walrus target is not a name")
-        return f"(ENamedExpr {q.N(at.sid(e.target.id))} {X(e.value)})"
+        return f"(ENamedExpr {_n(at.sid(e.target.id))} {X(e.value)})"
     if isinstance(e, (ast.ListComp, ast.SetComp, ast.DictComp)):
         gens = []
         for g in e.generators:
@@ -161,34 +176,34 @@ def program_term(src, at):
 def value_term(v, at):
     V = lambda x: value_term(x, at)  # noqa: E731
     if "o" in v:
-        return f"(VObj {q.N(v['o'])})"
+        return f"(o_ {_n(v['o'])})"
     if "c" in v:
         k = v["c"]
         if k == "none":
-            return "(VConst CNone)"
+            return "n_"
         if k == "ellipsis":
-            return "(VConst CEllipsis)"
+            return "e_"
         if k == "bool":
-            return f"(VConst (CBool {q.boolean(v['v'])}))"
+            return "b1" if v["v"] else "b0"
         if k == "int":
-            return f"(VConst (CInt {q.Z(int(v['v']))}))"
+            return f"(i_ {_z(int(v['v']))})"
         if k == "float":
-            return f"(VConst (CFloat {q.N(at.fid(v['v']))}))"
+            return f"(f_ {_n(at.fid(v['v']))})"
         if k == "str":
-            return f"(VConst (CStr {q.N(at.sid(v['v']))}))"
+            return f"(s_ {chars(v['v'])})"
         if k == "bytes":
-            return f"(VConst (CBytes {q.N(at.bid(v['v']))}))"
+            return f"(y_ {_n(at.bid(v['v']))})"
     if "l" in v:
-        return f"(VList {q.lst(V(x) for x in v['l'])})"
+        return f"(l_ {q.lst(V(x) for x in v['l'])})"
     if "t" in v:
-        return f"(VTuple {q.lst(V(x) for x in v['t'])})"
+        return f"(t_ {q.lst(V(x) for x in v['t'])})"
     if "s" in v:
-        return f"(VSet {q.lst(V(x) for x in v['s'])})"
+        return f"(z_ {q.lst(V(x) for x in v['s'])})"
     if "d" in v:
-        return f"(VDict {q.lst('(' + V(k) + ', ' + V(x) + ')' for k, x in v['d'])})"
+        return f"(d_ {q.lst('(' + V(k) + ',' + V(x) + ')' for k, x in v['d'])})"
     if "sl" in v:
         a, b, c = v["sl"]
-        return f"(VSlice {V(a)} {V(b)} {V(c)})"
+        return f"(sl_ {V(a)} {V(b)} {V(c)})"
     raise TranslateError(f"value {v} cannot be represented")
 
 
@@ -207,7 +222,7 @@ def primop_term(op, at):
         return f"(PCmp {TAPE_CMP[name]})"
     if tag in ("getattr", "setattr", "delattr"):
         ctor = {"getattr": "PGetAttr", "setattr": "PSetAttr", "delattr": "PDelAttr"}[tag]
-        return f"({ctor} {q.N(at.sid(name))})"
+        return f"({ctor} {_n(at.sid(name))})"
     simple = {"truth": "PTruth", "contains": "PContains", "getitem": "PGetItem", "setitem": "PSetItem", "delitem": "PDelItem",
               "iter": "PIter", "next": "PNext", "call": "PCall", "format": "PFormat"}
     if tag in simple:
@@ -220,18 +235,18 @@ def primop_term(op, at):
 def tape_term(tape, at):
     out = []
     for e in tape:
-        res = f"(TRaise {q.N(exc_id(e['exc']))})" if "exc" in e else f"(TRet {value_term(e['ret'], at)})"
-        out.append(f"{{| te_op := {primop_term(e['op'], at)}; te_args := {q.lst(value_term(a, at) for a in e['args'])}; te_res := {res} |}}")
+        res = f"(rx {_n(exc_id(e['exc']))})" if "exc" in e else f"(rt {value_term(e['ret'], at)})"
+        out.append(f"te {primop_term(e['op'], at)} {q.lst(value_term(a, at) for a in e['args'])} {res}")
     return q.lst(out)
 
 
 def env_term(env, at):
-    return q.lst(f"({q.N(at.sid(n))}, {value_term(v, at)})" for n, v in env)
+    return q.lst(f"({_n(at.sid(n))}, {value_term(v, at)})" for n, v in env)
 
 
 def nobs_term(o, at):
     if o is None:
-        return "([], [], 0%N)"
-    vs = q.lst(f"({q.N(at.sid(n))}, {q.N(at.sid('=' + c))})" for n, c in o["vars"])
-    lg = q.lst(f"({q.N(at.sid('#' + str(k)))}, {q.N(at.sid('=' + c))})" for k, c in o["log"])
-    return f"({vs}, {lg}, {q.N(exc_id(o['exc']))})"
+        return "([], [], 0)"
+    vs = q.lst(f"({_n(at.sid(n))}, {_n(at.sid('=' + c))})" for n, c in o["vars"])
+    lg = q.lst(f"({_n(at.sid('#' + str(k)))}, {_n(at.sid('=' + c))})" for k, c in o["log"])
+    return f"({vs}, {lg}, {_n(exc_id(o['exc']))})"
